@@ -630,7 +630,162 @@ fn gen(rng: &mut Rng, n: usize, tier: &str) -> Vec<String> {
         }
         out.push(ops.join(" "));
     }
+    // (4), (5): constructive families, no randomness (they do not depend on the random stream)
+    reconvergent_family(thorough, &mut out);
+    export_order_family(&mut out);
     out
+}
+
+/// (4) reconvergent import graphs (seeded C18-4): every DAG over 4 and 5 modules and a deterministic sample of the DAGs over
+/// 6 modules (edge i -> j, i < j: module i imports module j), built by accepted imports, followed by every cycle-closing
+/// import `b imports a` (a reaches b) for which the search from a meets a RECONVERGENCE (some module is reached from a along
+/// two different paths - the situation in which the breadth-first search sees an already-visited module). Each
+/// (graph, closing import) is REPEATED under several injective renamings of the modules (7 names incl. MAIN, creation and
+/// import order varied): every case runs on a fresh manager whose HashSets have their own random hash keys, so the
+/// iteration order of a module's import set differs between the repetitions. Expected on every repetition: `e:cycle`,
+/// nothing changed, the relation stays acyclic. One more repetition goes through the GRL front-end (`G`; b plays MAIN,
+/// whose block comes last).
+fn reconvergent_family(thorough: bool, out: &mut Vec<String>) {
+    // (`E` is not a usable module name: the observation grammar prints `E` for an Err)
+    const POOL: [&str; 7] = ["A", "B", "C", "D", "K", "F", "MAIN"];
+    for n in 4..=6usize {
+        let pairs: Vec<(usize, usize)> = (0..n).flat_map(|i| (i + 1..n).map(move |j| (i, j))).collect();
+        let n_masks: u64 = 1 << pairs.len();
+        // n = 6: a stride through the 32768 graphs (coprime with 2^15), graphs of 5..9 imports
+        let (stride, count, reps): (u64, u64, usize) = match n {
+            4 => (1, n_masks, if thorough { 16 } else { 12 }),
+            5 => (1, n_masks, if thorough { 8 } else { 2 }),
+            _ => (7919, if thorough { 4000 } else { 400 }, if thorough { 6 } else { 2 }),
+        };
+        let mut combo = 0usize;
+        for t in 0..count {
+            let mask = (t * stride + if n == 6 { 12345 } else { 0 }) % n_masks;
+            let edges: Vec<(usize, usize)> = pairs.iter().enumerate().filter(|(k, _)| (mask >> k) & 1 == 1).map(|(_, e)| *e).collect();
+            if n == 6 && !(5..=9).contains(&edges.len()) {
+                continue;
+            }
+            // paths[a][x] = number of paths a ->* x (capped), by decreasing a (edges go upwards)
+            let mut paths = vec![vec![0u32; n]; n];
+            for a in (0..n).rev() {
+                paths[a][a] = 1;
+                for &(i, j) in &edges {
+                    if i == a {
+                        for x in 0..n {
+                            paths[a][x] = (paths[a][x] + paths[j][x]).min(9);
+                        }
+                    }
+                }
+            }
+            for a in 0..n {
+                if !(0..n).any(|x| paths[a][x] >= 2) {
+                    continue;
+                }
+                for b in a + 1..n {
+                    if paths[a][b] == 0 {
+                        continue;
+                    }
+                    combo += 1;
+                    for q in 0..=reps {
+                        let grl = q == reps;
+                        let m = 1 + (q + q / 7 + combo) % 6;
+                        // the GRL repetition: b is MAIN
+                        let r = if grl { (6 + 7 * 6 - (b * m) % 7) % 7 } else { (q + combo / 6) % 7 };
+                        let name = |i: usize| POOL[(i * m + r) % 7];
+                        let mut toks: Vec<String> = Vec::new();
+                        if grl {
+                            toks.push("G".into());
+                            for j in (0..n).rev().filter(|j| *j != b).chain(std::iter::once(b)) {
+                                toks.push(format!("c:{}", name(j)));
+                                for &(i, k) in &edges {
+                                    if i == j {
+                                        toks.push(format!("i:{}:{}:AR:*", name(i), name(k)));
+                                    }
+                                }
+                            }
+                            toks.push(format!("i:{}:{}:AR:*", name(b), name(a)));
+                        } else {
+                            toks.push("L".into());
+                            for i in 0..n {
+                                let i = (i + q) % n;
+                                if name(i) != "MAIN" {
+                                    toks.push(format!("c:{}", name(i)));
+                                }
+                            }
+                            let mut es = edges.clone();
+                            if q % 2 == 1 {
+                                es.reverse();
+                            }
+                            es.rotate_left((q / 2) % edges.len().max(1));
+                            for (i, k) in es {
+                                toks.push(format!("i:{}:{}:{}:*", name(i), name(k), if (i + k + q) % 3 == 0 { "AT" } else { "AR" }));
+                            }
+                            toks.push(format!("i:{}:{}:AR:*", name(b), name(a)));
+                        }
+                        out.push(toks.join(" "));
+                    }
+                }
+            }
+        }
+    }
+}
+
+/// (5) export lists whose entries OVERLAP (seeded C18-14): module A owns rules r1, s1 and templates t1, r1, module B imports
+/// from it; A's export list has 2..4 entries of mixed item types (Rule / Template / Fact / All) with overlapping patterns,
+/// in EVERY order: whether a rule / template is exported (hence visible, listed) must not depend on the order of the list.
+fn export_order_family(out: &mut Vec<String>) {
+    const KINDS: [&str; 4] = ["R", "T", "F", "A"];
+    const IMPORTS: [&str; 4] = ["i:B:A:A:*", "i:B:A:AR:*", "i:B:A:R:r*", "i:B:A:T:*1:+r*"];
+    let mut idx = 0usize;
+    let mut emit = |entries: &[(usize, &str)], out: &mut Vec<String>| {
+        let list: Vec<String> = entries.iter().map(|(k, p)| format!("{}~{}", KINDS[*k], p)).collect();
+        out.push(format!("L c:A c:B r:A:r1 r:A:s1 t:A:t1 t:A:r1 {} x:A:s,{}", IMPORTS[idx % IMPORTS.len()], list.join(",")));
+        idx += 1;
+    };
+    // two entries: every ordered pair over 4 types x 5 patterns
+    let pats5 = ["*", "r*", "*1", "r1", "s*"];
+    let pool5: Vec<(usize, &str)> = (0..4).flat_map(|k| pats5.iter().map(move |p| (k, *p))).collect();
+    for a in &pool5 {
+        for b in &pool5 {
+            emit(&[*a, *b], out);
+        }
+    }
+    // three entries: every triple of distinct entries over 4 types x 3 patterns with at least two types, every order
+    let pats3 = ["*", "r*", "*1"];
+    let pool3: Vec<(usize, &str)> = (0..4).flat_map(|k| pats3.iter().map(move |p| (k, *p))).collect();
+    const ORD3: [[usize; 3]; 6] = [[0, 1, 2], [0, 2, 1], [1, 0, 2], [1, 2, 0], [2, 0, 1], [2, 1, 0]];
+    for x in 0..pool3.len() {
+        for y in x + 1..pool3.len() {
+            for z in y + 1..pool3.len() {
+                let e = [pool3[x], pool3[y], pool3[z]];
+                if e[0].0 == e[1].0 && e[1].0 == e[2].0 {
+                    continue;
+                }
+                for o in ORD3 {
+                    emit(&[e[o[0]], e[o[1]], e[o[2]]], out);
+                }
+            }
+        }
+    }
+    // four entries: one per item type, every choice of its pattern, every order
+    let mut perms: Vec<[usize; 4]> = Vec::new();
+    for a in 0..4 {
+        for b in 0..4 {
+            for c in 0..4 {
+                for d in 0..4 {
+                    let p = [a, b, c, d];
+                    if (0..4).all(|v| p.contains(&v)) {
+                        perms.push(p);
+                    }
+                }
+            }
+        }
+    }
+    for code in 0..81usize {
+        let e: Vec<(usize, &str)> = (0..4).map(|k| (k, pats3[(code / 3usize.pow(k as u32)) % 3])).collect();
+        for p in &perms {
+            emit(&[e[p[0]], e[p[1]], e[p[2]], e[p[3]]], out);
+        }
+    }
 }
 
 fn shrink(case: &str) -> Vec<String> {
